@@ -25,24 +25,20 @@ func tAfter(t *Toks, a radius.Attributes) {
 	tAttrs(t, a)
 	n, err := radius.AttributesEncodedLen(a)
 	if err != nil {
-		t.I(1).I(5)
+		t.E(5)
 	} else {
 		t.I(0).I(int64(n))
 	}
 	p := &radius.Packet{Code: 1, Attributes: a}
 	b, err := p.MarshalBinary()
 	if err != nil {
-		if err.Error() == "radius: attribute too large" {
-			t.I(1).I(5)
-		} else {
-			t.I(1).I(6)
-		}
+		t.E(errClass(err))
 	} else {
 		t.I(0).B(b)
 	}
 }
 
-func runAttrOps(start []aop, ops []aop) (Req, string) {
+func runAttrOps(start []aop, ops []aop) (Req, *Toks) {
 	var a radius.Attributes
 	req := Req{Name: "attrs_run"}
 	req.Zs = append(req.Zs, Z(int64(len(start))))
@@ -74,7 +70,7 @@ func runAttrOps(start []aop, ops []aop) (Req, string) {
 		}
 		tAfter(t, a)
 	}
-	return req, t.String()
+	return req, t
 }
 
 func init() {
@@ -94,7 +90,7 @@ func init() {
 		rec = func(prefix []aop) {
 			if len(prefix) > 0 {
 				req, impl := runAttrOps(nil, prefix)
-				c.Add(Case{Req: req, Impl: impl, Tag: tagOps(nil, prefix)})
+				c.Add(T(req, impl, tagOps(nil, prefix)))
 			}
 			if len(prefix) == maxLen {
 				return
@@ -143,7 +139,7 @@ func init() {
 				ops = append(ops, aop{r.Intn(5), tys[r.Intn(len(tys))], rv()})
 			}
 			req, impl := runAttrOps(start, ops)
-			c.Add(Case{Req: req, Impl: impl, Tag: tagOps(start, ops)})
+			c.Add(T(req, impl, tagOps(start, ops)))
 		}
 		c.Trivial("reads-only", "no-hit")
 		c.Flush()
